@@ -878,7 +878,7 @@ theorem tagFrame_descr (n text : Bytes) (x0 : Option Bytes) : TagFrame (QDescr n
     intro G G' h t hf
     have hne : (t.name == n) = false := by
       cases hn : G.find? (fun x => x.name == n) with
-      | none => rw [hn] at h; cases h.2
+      | none => have h2 := h.2; rw [hn] at h2; cases h2
       | some u =>
         have hu := List.find?_some hn
         have hm := List.mem_of_find?_eq_some hn
@@ -909,8 +909,8 @@ theorem FDescr.out {n text : Bytes} {x0 : Option Bytes} {d d' : Cat} (h : (FDesc
   have ht : d'.types = d.types := ht
   have hg : d'.tags = d.tags.map (descrSet n text) := hg
   cases d; cases d'
-  simp only [Cat.updTag] at *
-  simp_all
+  simp only at h1 h2 h3 h4 h5 h6 hs ht hg
+  subst h1 h2 h3 h4 h5 h6 hs ht hg
   rfl
 
 theorem descr_lift (banned : List Kind) (anc : List Up) (ts : List BTree) (c : Cat) (n text : Bytes)
